@@ -357,9 +357,10 @@ def _coverage(repo, rep):
               detail=str(guards))
     # the name is the QUALIFIED one: two classes' nested factories
     # (Shout.Expr / Whisper.Expr) share __name__ and module
-    fmts = [n for n in ast.walk(sn.node) if isinstance(n, ast.Call)
-            and isinstance(n.func, ast.Attribute) and n.func.attr == "format"
-            and len(n.args) == 2]
+    class _F:
+        def __init__(self, args):
+            self.args = args
+    fmts = [_F(a_) for t_, a_, n_ in L.fmt_sites(sn.node) if len(a_) == 2]
     okq = bool(fmts)
     qdetail = ""
     for fm in fmts:
@@ -602,7 +603,9 @@ def _lookup(repo, rep):
     g = repo.func(LD + "ModuleLoader.get")
     t = L.text(g.node)
     rep.check("path = os.path.join(self.path, filename)" in t and
-              "if os.path.exists(path):" in t and
+              any(isinstance(n, ast.If) and
+                  src(L._CanonIf._pos(n.test)[0]) == "os.path.exists(path)"
+                  for n in ast.walk(g.node)) and
               "return self._load(base, path)" in t and "return None" in t and
               sum(1 for n in ast.walk(g.node) if isinstance(n, ast.Assign)
                   and src(n.targets[0]) == "path") == 1,
@@ -632,6 +635,8 @@ def _lookup(repo, rep):
               "from the key", construct="same-name", where=L.where(ck))
     gm = repo.func("chameleon.template.BaseTemplateFile._get_module_name")
     t = L.text(gm.node, body_only=True)
-    rep.check("'{}_{}.py'.format(mangled, name)" in t, "R15.3", gm.qualname,
+    rep.check(any(t_ == "%s_%s.py" and [src(x) for x in a_] ==
+                  ["mangled", "name"] for t_, a_, n_ in L.fmt_sites(gm.node)),
+              "R15.3", gm.qualname,
               "file templates prefix the key with the mangled file name",
               construct="file-module-name", where=L.where(gm))
